@@ -66,6 +66,11 @@ CHECKS = {
          "Random search over label/constant trees to depth 4 with repeated local names, forward and backward references at every dot level, constant chains in any order and single injected faults, compared bit-for-bit and symbol-for-symbol with the reference; moved-constant variants must assemble identically. Exploration.",
          "Constants open scopes exactly like labels (documented by the repository's tests); only scope-neutral moves are generated.",
          "6/C15"),
+ "C16": ("exploration",
+         "model-based property testing of conditional-assembly trees x define assignments against a reference least-fixed-point world selector feeding the reference assembler; defines passed both through the library and through the driver's -d options",
+         "Random search over #if/#elif/#else trees to depth 4 (conditions over constants declared before, after and inside other arms, hierarchical names) x 0-4 defines; the one live world is computed by the reference and assembled by the reference assembler; accept/reject, bits and symbols must match, and library and command-line ways of passing defines must agree. Exploration.",
+         "Arms declare only global symbols or only children of the global label preceding the chain (the re-parenting of later nested declarations is a listed known finding with a directed probe); defines name constants or nothing.",
+         "6/C16"),
  "C08": ("exploration",
          "metamorphic/differential property testing: the same job under the four optimisation-switch combinations x five iteration budgets must agree on success, bits and symbols",
          "Differential run of the real code against itself over generated (size-static and cascading) programs, the whole test corpus and token-mutated corpus programs. No model is trusted; exploration of a sampled program space.",
